@@ -1,10 +1,12 @@
 // T14 / T15 support: what a `{}` placeholder prints for the argument kinds that occur at the rewritten format! sites
 // (std::fmt: Display of str / String is the text itself, of a reference the referent's, of usize its decimal spelling) - ASSUMED.
-pub trait Txt { spec fn tv(&self) -> Seq<char>; }
-impl Txt for String { open spec fn tv(&self) -> Seq<char> { self@ } }
-impl Txt for str { open spec fn tv(&self) -> Seq<char> { self@ } }
-impl Txt for usize { open spec fn tv(&self) -> Seq<char> { dec(*self) } }
-impl<X: Txt + ?Sized> Txt for &X { open spec fn tv(&self) -> Seq<char> { (**self).tv() } }
+/// `tv` is what `{}` prints, `dv` what `{:?}` prints (for strings: the quoted, escaped spelling - an uninterpreted function of the text)
+pub uninterp spec fn debug_str(s: Seq<char>) -> Seq<char>;
+pub trait Txt { spec fn tv(&self) -> Seq<char>; spec fn dv(&self) -> Seq<char>; }
+impl Txt for String { open spec fn tv(&self) -> Seq<char> { self@ } open spec fn dv(&self) -> Seq<char> { debug_str(self@) } }
+impl Txt for str { open spec fn tv(&self) -> Seq<char> { self@ } open spec fn dv(&self) -> Seq<char> { debug_str(self@) } }
+impl Txt for usize { open spec fn tv(&self) -> Seq<char> { dec(*self) } open spec fn dv(&self) -> Seq<char> { dec(*self) } }
+impl<X: Txt + ?Sized> Txt for &X { open spec fn tv(&self) -> Seq<char> { (**self).tv() } open spec fn dv(&self) -> Seq<char> { (**self).dv() } }
 
 /// T15: String from a string literal or a named string value (`x.into()` / `.to_string()` / `.to_owned()` / `String::from(x)`)
 #[verifier::external_body]
